@@ -753,3 +753,83 @@ func TestVerifProbeStorageconcStress(t *testing.T) {
 	}
 	wg.Wait()
 }
+
+// ---------------------------------------------------------------------------------------------
+// router: which worker does mainLoop hand a request to?  (behavioural side of gen/RouterTable.v)
+// ---------------------------------------------------------------------------------------------
+
+// For every StorageRequestConstant 0..N: 48 requests with the same cluster and group are sent through the public
+// channel of a module with 4 workers whose worker channels are read by the probe (no handler runs).  One output
+// line: `router <type>=<sorted worker indices or closed> ...`.
+func TestVerifProbeStorageconcRouter(t *testing.T) {
+	outPath := os.Getenv("VERIF_OUT")
+	if outPath == "" {
+		t.Skip("VERIF_OUT not set")
+	}
+	viper.Reset()
+	viper.Set("storage.test.class-name", "inmemory")
+	viper.Set("storage.test.workers", 4)
+	module := &InMemoryStorage{Log: zap.NewNop()}
+	module.App = &protocol.ApplicationContext{StorageChannel: make(chan *protocol.StorageRequest)}
+	module.Configure("test", "storage.test")
+	module.workers = make([]chan *protocol.StorageRequest, module.numWorkers)
+	for i := range module.workers {
+		module.workers[i] = make(chan *protocol.StorageRequest, 64)
+	}
+	module.mainRunning.Add(1)
+	go module.mainLoop()
+	var parts []string
+	for typ := 0; typ < 16; typ++ {
+		seen := map[int]bool{}
+		closed := 0
+		for k := 0; k < 48; k++ {
+			r := &protocol.StorageRequest{RequestType: protocol.StorageRequestConstant(typ), Cluster: "k1", Group: "g7", Topic: "t1", Reply: make(chan interface{}, 1)}
+			module.requestChannel <- r
+			got := false
+			deadline := time.After(2 * time.Second)
+			for !got {
+				for i, ch := range module.workers {
+					select {
+					case x := <-ch:
+						if x == r {
+							seen[i] = true
+							got = true
+						}
+					default:
+					}
+				}
+				if got {
+					break
+				}
+				select {
+				case _, ok := <-r.Reply:
+					if !ok {
+						closed++
+						got = true
+					}
+				case <-deadline:
+					got = true
+				case <-time.After(time.Millisecond):
+				}
+			}
+		}
+		var idx []int
+		for i := range seen {
+			idx = append(idx, i)
+		}
+		sort.Ints(idx)
+		s := fmt.Sprintf("%d=", typ)
+		for _, i := range idx {
+			s += strconv.Itoa(i)
+		}
+		if closed > 0 {
+			s += fmt.Sprintf("closed%d", closed)
+		}
+		parts = append(parts, s)
+	}
+	close(module.requestChannel)
+	module.mainRunning.Wait()
+	if err := os.WriteFile(outPath, []byte("router "+strings.Join(parts, " ")+"\n"), 0o644); err != nil {
+		t.Fatal(err)
+	}
+}
